@@ -1,7 +1,7 @@
 """C10 - interaction features represent joint values faithfully."""
 import z3
 
-FUNCTIONS = ['compute_combined_features.length_prefixed', 'compute_combined_features.combine_features']
+FUNCTIONS = ['compute_combined_features.length_prefixed', 'compute_combined_features.combine_features', 'compute_combined_features']
 LEVEL = 'proof'
 EXPLANATION = ('contract on the real nested function combine_features (for every frame of strings, every order k >= 1, every row pair): the '
                'returned name is join_string.join(constituents); one value per row; two rows get equal interaction values IF AND ONLY IF they '
@@ -11,14 +11,17 @@ EXPLANATION = ('contract on the real nested function combine_features (for every
                'and is injective, first-colon split, equal-length cancellation) are each proved in the SMT-LIB theory of unbounded strings by '
                'z3 / cvc5 on every run.  Ownership obligation: the in-place += only ever updates a Series created in this call (so neither the '
                'frame nor a cached object is modified).  Score equality follows from equality of the induced partitions (C01: the estimator is a '
-               'function of the joint counts); the enclosing function (candidate space, cap, concatenation to the frame) is checked by '
-               'executable contract on adversarial frames, labelled bounded')
+               'function of the joint counts).  The enclosing compute_combined_features is proved against the callee contracts (sampler of C07, '
+               'combine_features) and the frame stubs: original columns first and untouched, row alignment, at most `cap` candidates, each a '
+               'k-selection of non-label columns (k = interaction order, 2 for 3MR), and every appended column is named " AND ".join(candidate) '
+               '(" AND_REL " for 3MR) and is faithful to that candidate.  That the candidate space is ALL k-subsets (completeness of '
+               'itertools.combinations) and the reference-model / prior branches are checked by executable contract only (bounded)')
 ASSUMPTIONS = ['pandas: Series.astype(str) / map / apply are element-wise and return new objects; Series + Series over the same RangeIndex is '
                'element-wise; cells are str (the pipeline builds the frame from parsed strings)',
                'xxh64 collision freedom (stated in the property); str.encode("utf-8") injective',
                'new_combination modelled as a list (it is a tuple: same indexing / slicing / join semantics)',
-               'compute_combined_features outside combine_features (itertools.combinations, sampler call, pd.concat): bounded stand-in only']
-TRUSTED = ['Series.astype', 'Series.map', 'Series.apply', 'Series.__add__', 'xxhash.xxh64', 'str.join', 'str.encode']
+               'itertools.combinations(pool, k) yields k-selections at increasing positions, pairwise different (completeness not modelled); reference_model_JSON == "" (the prior / reference-model branches are outside the contract)', 'pandas DataFrame(dict) / concat(axis=1) as in C11']
+TRUSTED = ['itertools.combinations', 'pandas.DataFrame', 'pandas.concat', 'Series.astype', 'Series.map', 'Series.apply', 'Series.__add__', 'xxhash.xxh64', 'str.join', 'str.encode']
 LEMMAS = ['lpcat_faithful', 'lp_prefix_code']
 
 
